@@ -12,7 +12,9 @@ RULE = ('the full finite grid: backend name in {absent, "fk", "fk/ALSA", ""} x a
         'second call (lazy import); plus mido.set_backend rebinding. Exhaustive; distinct by configuration; all non-trivial')
 
 FUNCS = ['open_input', 'open_output', 'open_ioport', 'get_input_names', 'get_output_names', 'get_ioport_names']
-DEVICES = [('a', True, False), ('b', True, True), ('c', False, True), ('d', True, True), ('b2', False, False)]
+# 'e' is listed the way portmidi and pygame list devices: one entry per direction under the same name
+DEVICES = [('a', True, False), ('b', True, True), ('e', True, False), ('c', False, True), ('d', True, True), ('b2', False, False),
+           ('e', False, True)]
 
 
 def tok(s):
@@ -219,6 +221,29 @@ def check_set_backend():
         mido.set_backend('fk/ALSA')
         if mido.backend.name != 'fk' or mido.backend.api != 'ALSA' or mido.open_input.__self__ is not mido.backend:
             return 'set_backend("fk/ALSA") did not rebind to a backend fk with api ALSA'
+        # histories: the current backend has been USED (module loaded) before the next set_backend, same module
+        import importlib
+        log = []
+        fake = make_module('fk', True, True, log)
+        real_import = importlib.import_module
+        importlib.import_module = lambda name, package=None: fake if name == 'fk' else real_import(name, package)
+        try:
+            mido.open_input('x')
+            if log[-1:] != ['ctor:Input:x:ALSA']:
+                return f'open_input after set_backend("fk/ALSA") recorded {log[-1:]}'
+            for nxt, api in (('fk/JACK', 'JACK'), ('fk', None), ('fk/ALSA', 'ALSA')):
+                mido.set_backend(nxt)
+                mido.open_output('y')
+                if mido.backend.api != api or log[-1] != 'ctor:Output:y:%s' % tok(api) or mido.open_output.__self__ is not mido.backend:
+                    return (f'history [set_backend, use, set_backend({nxt!r}), use]: the top-level functions still reach the '
+                            f'previous backend (api {mido.backend.api!r}, last record {log[-1]})')
+            b2 = Backend('fk', api='PULSE', use_environ=False)
+            mido.set_backend(b2)
+            mido.get_input_names()
+            if mido.backend is not b2 or log[-1] != 'devices:PULSE':
+                return f'set_backend(Backend("fk", api="PULSE")) after use of fk/ALSA: last record {log[-1]}'
+        finally:
+            importlib.import_module = real_import
         return None
     finally:
         for n, f in saved.items():
